@@ -303,6 +303,16 @@ def check_data_multi(ctx, rng):
 def build_interest(rng, prefix, seq, app, signer_kind, digest_mode):
     name = list(prefix) + [rc.comp(8, str(seq).encode())]
     signer = None
+    if signer_kind == 'sig-without-params':
+        # hand-made: InterestSignatureInfo and InterestSignatureValue but NO ApplicationParameters element at all; the digest
+        # component is absent ('missing') or arbitrary: it "carries a signature", and no reading makes its parameters digest correct
+        w0 = bytes(make_interest(name, InterestParam(nonce=seq, lifetime=4000), b'', pkts.make_signer(rng, 'digest-int')[0]))
+        buf, vs, ve = rc.outer(w0, 5)
+        kids = [k for k in rc.children(buf, vs, ve) if k[0] not in (7, 0x24)]
+        comps = [c for c in rc.strict_interest(w0)['name'] if rc.comp_parts(c)[0] != 2]
+        if digest_mode != 'missing':
+            comps.append(rc.comp(2, gen.rand_bytes(rng, 32)))
+        return rc.enc_tlv(5, rc.enc_name(comps) + b''.join(buf[k[1]:k[3]] for k in kids))
     if signer_kind != 'unsigned':
         signer, _ = pkts.make_signer(rng, {'digest': 'digest-int', 'hmac': 'hmac', 'ecdsa': 'ecdsa256', 'siginfo-only': 'digest-int'}[signer_kind])
     app_param = {'absent': None, 'empty': b'', 'nonempty': b'param-bytes'}[app]
@@ -356,6 +366,7 @@ def check_interest_side(ctx, rng):
                     if app == 'absent' and sk == 'unsigned' and dm != 'ok':
                         continue
                     matrix.append((app, sk, dm))
+        matrix += [('absent', 'sig-without-params', 'missing'), ('absent', 'sig-without-params', 'bitflip')] * 3
         reps = 1 if ctx.quick else 3
         run_interest_batch(ctx, rng, fe, configs, matrix * reps)
 
